@@ -13,6 +13,7 @@ import (
 	"bytes"
 	"encoding/json"
 	"fmt"
+	"io"
 	"math/rand"
 	"net"
 	"net/http/httptest"
@@ -556,7 +557,7 @@ func c20Sequence(c *core.Ctx, idx int) {
 				got := settle(0)
 				c.Count("obligations", 1)
 				if code < 400 {
-					e.violate("start-while-running", fmt.Sprintf("start of a running DAG was accepted (HTTP %d)", code))
+					e.violate("start-while-running", fmt.Sprintf("start of a running DAG was accepted (HTTP %d); %s", code, e.probe(d)))
 				}
 				noSpawn("start-while-running", got)
 				unchanged("start-while-running")
@@ -914,6 +915,28 @@ func (e *c20Env) frozenEdit(d *c20Dag) {
 			e.violate("mark-changed-more|after-refused-edit", fmt.Sprintf("accepted mark-failed of step %s also changed step %s from %v to %v (the edit of %s refused just before has become durable)", other, n, stepState(pm, n), stepState(nm, n), step))
 		}
 	}
+}
+
+// probe asks the held run's agent directly, for the text of a violation: whether its socket
+// is there and what it answers.
+func (e *c20Env) probe(d *c20Dag) string {
+	dg := mustDAG(e, d)
+	if dg == nil {
+		return "probe: the definition cannot be loaded"
+	}
+	addr := dg.SockAddr()
+	_, serr := os.Stat(addr)
+	t0 := time.Now()
+	conn, derr := net.DialTimeout("unix", addr, 3*time.Second)
+	ans := ""
+	if derr == nil {
+		_ = conn.SetDeadline(time.Now().Add(5 * time.Second))
+		_, _ = conn.Write([]byte("GET /status HTTP/1.0\r\n\r\n"))
+		b, rerr := io.ReadAll(conn)
+		conn.Close()
+		ans = fmt.Sprintf("%d bytes, error %v, begins %q", len(b), rerr, clip(string(b), 160))
+	}
+	return fmt.Sprintf("probe of the held run's agent: socket %s stat error %v; dial error %v; answer after %d ms: %s", addr, serr, derr, time.Since(t0).Milliseconds(), ans)
 }
 
 func mustDAG(e *c20Env, d *c20Dag) *dag.DAG {
